@@ -1,11 +1,12 @@
 (* line protocol (strings: 'e' or dot-separated decimal code points; lists: comma separated, '-' = empty):
-     U <key> <body> <dep,dep,..>          universe entry
+     K <class id> <name> <base id,..|->   pydsdl class forest entry
+     U <key> <class id> <body> <dep,dep,..>   universe entry
      T <cfg> <key> <item> <item> ...      script of (configuration, type): t:<str> | u:<key>:<base>:<pre>:<suf> | m:<q>
-     N <cfg> <pps> <key,key,..>           construct a generator; pps: '-' or colon-separated T | L<n> | L<n>@<count>
+     N <cfg> <stem=path,..|-> <pps> <key,key,..>   construct a generator with a template listing; pps: '-' or colon-separated T | L<n> | L<n>@<count>
      R <gid> <key,key,..>                 generate_all of generator gid in this order
      C                                    clear caches
-     X <resets 0|1> <lel_shared 0|1> <maxsize|->   run the accumulated history in a new interpreter, print
-                                          `E <cfg> <key> <clean 0|1> <text>` per file, `S <hist_solid 0|1>`, `END`; forget U/T/history *)
+     X <resets 0|1> <lel_shared 0|1> <maxsize|-> <markers 0|1>   run the accumulated history in a new interpreter, print
+                                          `E <cfg> <key> <clean 0|1> <text> <template path|->` per file, `S <hist_solid 0|1>`, `END`; forget U/T/history *)
 open Model
 
 let rec pos_of_int n = if n = 1 then XH else if n land 1 = 0 then XO (pos_of_int (n lsr 1)) else XI (pos_of_int (n lsr 1))
@@ -34,24 +35,29 @@ let parse_item t =
   | _ -> failwith ("item " ^ t)
 
 let () =
-  let u = ref [] and tab = ref [] and h = ref [] in
+  let u = ref [] and tab = ref [] and h = ref [] and ct = ref [] in
+  let parse_ts s = if s = "-" then [] else List.map (fun t -> match String.split_on_char '=' t with
+      | [a; b] -> (parse_str a, parse_str b) | _ -> failwith "tset") (String.split_on_char ',' s) in
+  let parse_ids s = if s = "-" then [] else List.map (fun t -> n_of_int (int_of_string t)) (String.split_on_char ',' s) in
   try
     while true do
       let line = input_line stdin in
       (try
         match List.filter (fun t -> t <> "") (String.split_on_char ' ' (String.trim line)) with
-        | ["U"; k; b; deps] -> u := !u @ [(parse_str k, { d_body = parse_str b; d_deps = parse_list deps })]
+        | ["K"; c; n; bs] -> ct := !ct @ [(n_of_int (int_of_string c), (parse_str n, parse_ids bs))]
+        | ["U"; k; c; b; deps] -> u := !u @ [(parse_str k, { d_cls = n_of_int (int_of_string c); d_body = parse_str b; d_deps = parse_list deps })]
         | "T" :: c :: k :: items -> tab := !tab @ [((n_of_int (int_of_string c), parse_str k), List.map parse_item items)]
-        | ["N"; c; pps; ins] -> h := !h @ [ONew (n_of_int (int_of_string c), parse_pps pps, parse_list ins)]
+        | ["N"; c; ts; pps; ins] -> h := !h @ [ONew (n_of_int (int_of_string c), parse_ts ts, parse_pps pps, parse_list ins)]
         | ["R"; g; order] -> h := !h @ [ORun (nat_of_int (int_of_string g), parse_list order)]
         | ["C"] -> h := !h @ [OClear]
-        | ["X"; r; l; m] ->
+        | ["X"; r; l; m; mk] ->
           let ms = if m = "-" then None else Some (nat_of_int (int_of_string m)) in
-          let es = exec_table !u !tab ms (r = "1") (l = "1") !h in
+          let es = exec_table !ct !u (mk = "1") !tab ms (r = "1") (l = "1") !h in
           List.iter (fun e -> print_string ("E " ^ string_of_int (int_of_n e.e_cfg) ^ " " ^ show e.e_key ^ " "
-                                            ^ (if e.e_clean then "1" else "0") ^ " " ^ show e.e_text ^ "\n")) es;
-          print_string ("S " ^ (if solid_table !u !tab !h then "1" else "0") ^ "\nEND\n");
-          u := []; tab := []; h := []
+                                            ^ (if e.e_clean then "1" else "0") ^ " " ^ show e.e_text ^ " "
+                                            ^ (match e.e_tmpl with Some p -> show p | None -> "-") ^ "\n")) es;
+          print_string ("S " ^ (if solid_table !ct !u (mk = "1") !tab !h then "1" else "0") ^ "\nEND\n");
+          u := []; tab := []; h := []; ct := []
         | [] -> ()
         | _ -> print_string "ERR bad line\n"
       with Failure m -> print_string ("ERR " ^ m ^ "\n"))
